@@ -184,6 +184,32 @@ Proof.
     apply (proj1 (at_all _ _ Re Rs)).
 Qed.
 
+(* the same with a statement filler as well (contexts whose hole is a statement position take `st`) *)
+Theorem rejected_after_decl_es (Inv : st -> Prop) (decl : stmt) (e : expr) (stm : stmt) :
+  (forall s s', wf s -> ext s s' -> Inv s -> Inv s') ->
+  (forall kinds g f s u s', wf s -> outer_statement kinds (gfix g) (afix kinds (gfix g) f) decl ctx_new s = Ok (u, s') -> Inv s') ->
+  (forall kinds g f ctx s, wf s /\ Inv s -> notok (r_expr (afix kinds (gfix g) f) e ctx s)) ->
+  (forall kinds g f ctx s, wf s /\ Inv s -> notok (r_stmt (afix kinds (gfix g) f) stm ctx s)) ->
+  forall pre mid post dname dvar dkind dty (C : ectx) dsp fuel vars,
+    typecheck fuel (mkResolved vars
+      (pre ++ decl :: mid ++ SDefinition dname dvar dkind dty (plug_e e stm C) dsp :: post)) <> Ok tt.
+Proof.
+  intros IE Hd He Hs pre mid post dname dvar dkind dty C dsp fuel vars.
+  apply typecheck_notok. intros s W. unfold solve. apply bind_notok_l.
+  set (kinds := kinds_of vars 1 (PositiveMap.empty varkind)).
+  pose proof (gfix_pres fuel) as PG. pose proof (afix_pres kinds (gfix fuel) PG fuel) as PA.
+  apply (iterM_notok_after _ Inv); try assumption.
+  - intros y. now apply pres_outer_statement.
+  - intros s0 u s1 W0 H0. exact (Hd _ _ _ _ _ _ W0 H0).
+  - intros s0 J0. cbv beta.
+    set (J := fun s => wf s /\ Inv s).
+    assert (HJ : pres_closed J) by (apply inv_pres_closed; assumption).
+    apply (outer_def_notok_j kinds (gfix fuel) PG J HJ e stm); [assumption|].
+    assert (Re : forall c, rej_e_j kinds (gfix fuel) J e c) by (intros c f s' J'; now apply He).
+    assert (Rs : forall c, rej_s_j kinds (gfix fuel) J stm c) by (intros c f s' J'; now apply Hs).
+    apply (proj1 (at_all _ _ Re Rs)).
+Qed.
+
 (* ================================================================== C03 through calls *)
 
 (* After `f :: fn p1: t1, .., pn: tn -> r do .. end` (leaf types), anywhere inside the value of a later top-level
@@ -217,4 +243,38 @@ Proof.
   - intros s s' W E. now apply var_is_ext.
   - intros kinds g f s u s' W H. eapply var_established; eassumption.
   - intros kinds g f ctx s J. now apply (bad_var_use_rejected kinds g v b Rb e B).
+Qed.
+
+(* the statement kinds: `x: str = f(1)`, `loop f(1) do .. end`, an unused `"a" + f(1)`; at a statement position *)
+Theorem C03_calls_stmt_rejected name v kind dty nm params ps rb tsp body pure fsp dsp e stm :
+  annotated params ps -> (forall n b, nth_error ps n = Some b -> rigid_base b = true) -> rigid_base rb = true ->
+  bad_call v ps rb e -> bad_stmt_g (call_atom v rb) stm ->
+  forall pre mid post dname dvar dkind dty' (C : ectx) dsp' fuel vars,
+    typecheck fuel (mkResolved vars
+      (pre ++ SDefinition name v kind dty (EFunction nm params (TResolved rb tsp) body pure fsp) dsp :: mid ++
+       SDefinition dname dvar dkind dty' (plug_e e stm C) dsp' :: post)) <> Ok tt.
+Proof.
+  intros An Rg Rr B Bs. apply (rejected_after_decl_es (fn_sig v ps rb)).
+  - intros s s' W E. now apply fn_sig_ext.
+  - intros kinds g f s u s' W H. eapply fn_established; eassumption.
+  - intros kinds g f ctx s J. now apply (bad_call_rejected kinds g v ps rb Rg Rr e B).
+  - intros kinds g f ctx s [W Sg].
+    apply (bad_stmt_g_rejected kinds g (fn_sig v ps rb) (fn_sig_ext v ps rb Rg Rr) (call_atom v rb)
+             (call_atom_rigid v rb Rr) (call_atom_spec kinds g v ps rb Rg Rr) (call_atom_not_fn v rb) stm Bs f ctx s W Sg).
+Qed.
+
+Theorem C03_var_use_stmt_rejected name v kind b tsp value dsp e stm :
+  rigid_base b = true -> bad_expr_g (var_atom v b) e -> bad_stmt_g (var_atom v b) stm ->
+  forall pre mid post dname dvar dkind dty' (C : ectx) dsp' fuel vars,
+    typecheck fuel (mkResolved vars
+      (pre ++ SDefinition name v kind (TResolved b tsp) value dsp :: mid ++
+       SDefinition dname dvar dkind dty' (plug_e e stm C) dsp' :: post)) <> Ok tt.
+Proof.
+  intros Rb B Bs. apply (rejected_after_decl_es (var_is v b)).
+  - intros s s' W E. now apply var_is_ext.
+  - intros kinds g f s u s' W H. eapply var_established; eassumption.
+  - intros kinds g f ctx s J. now apply (bad_var_use_rejected kinds g v b Rb e B).
+  - intros kinds g f ctx s [W Hv].
+    apply (bad_stmt_g_rejected kinds g (var_is v b) (fun s s' => var_is_ext v b s s' Rb) (var_atom v b)
+             (var_atom_rigid v b Rb) (var_atom_spec kinds g v b Rb) (var_atom_not_fn v b) stm Bs f ctx s W Hv).
 Qed.
